@@ -89,6 +89,57 @@ def run_all(pid=None, jobs=8):
     return list(zip(ms, res))
 
 
+REFACTORINGS = os.path.join(VERIF, "selftest", "refactorings.json")
+
+
+def claimed():
+    with open(os.path.join(VERIF, "MANIFEST.json")) as fh:
+        return [c["property_id"] for c in json.load(fh)["checks"]]
+
+
+def run_refactoring(m, props=None):
+    """behaviour-preserving edit: every check must stay silent (exit 0). returns list of (property, exit, line)"""
+    tmp = make_copy()
+    bad = []
+    try:
+        if not apply(tmp, m):
+            return [("-", 9, "stale: text to replace not found in %s" % m["file"])]
+        env = dict(os.environ)
+        env["GM2_REPO"] = tmp
+        env["GM2_NO_EVIDENCE"] = "1"
+        env["GM2_CACHE"] = os.path.join(tmp, ".cache")
+        from . import extract as X
+        base = os.path.join(X.CACHE, X.tree_hash(REPO))
+        if os.path.isdir(base):
+            env["GM2_CACHE_SEED"] = base
+            env["GM2_CHANGED"] = m["file"]
+        for pid in (props or claimed()):
+            r = subprocess.run([sys.executable, os.path.join(VERIF, "check"), pid, "--tier", "quick"],
+                               capture_output=True, text=True, env=env)
+            if r.returncode != 0:
+                lines = [l.strip() for l in r.stdout.splitlines() if " -- " in l or l.startswith("INCONCLUSIVE")]
+                bad.append((pid, r.returncode, (lines[0] if lines else r.stdout[-200:] + r.stderr[-200:])[:260]))
+        return bad
+    finally:
+        shutil.rmtree(tmp, ignore_errors=True)
+
+
+def run_refactorings(jobs=6):
+    from concurrent.futures import ThreadPoolExecutor
+    with open(REFACTORINGS) as fh:
+        ms = json.load(fh)
+    with ThreadPoolExecutor(max_workers=jobs) as ex:
+        res = list(ex.map(run_refactoring, ms))
+    return list(zip(ms, res))
+
+
+if __name__ == "__main__" and len(sys.argv) > 1 and sys.argv[1] == "--refactorings":
+    nbad = 0
+    for m, bad in run_refactorings():
+        print("%-7s %-28s %s" % ("silent" if not bad else "ALARM", m["id"], "; ".join("%s exit=%d %s" % b for b in bad)[:400]))
+        nbad += bool(bad)
+    sys.exit(1 if nbad else 0)
+
 if __name__ == "__main__":
     pid = sys.argv[1] if len(sys.argv) > 1 else None
     bad = 0
